@@ -77,6 +77,13 @@ def run(rep, ctx):
     rep.assumptions += ['the substance of reconstruction lives in the native library: this property is mostly contract, and the evidence says so']
     n = 1500 if tier == 'quick' else 20000
     pairs = string_pairs(rng, n)
+    # small-scope exhaustive: every string of length <= 3 (quick) / <= 4 (thorough) over {a, b, newline-ish e-acute} against every other
+    import itertools
+    alphabet = ['a', 'b', '\u00e9']
+    small = [''.join(t) for k in range(0, (3 if tier == 'quick' else 4) + 1) for t in itertools.product(alphabet, repeat=k)]
+    scope = list(itertools.product(small, small))
+    rep.extra['small_scope_exhaustive_pairs'] = len(scope)
+    pairs += scope
     n_contract = n_src = n_corr = 0
     lines, srcs = [], []
     for a, b in pairs:
